@@ -392,6 +392,10 @@ def _walk_terms(t):
             yield from _walk_terms(x)
 
 
+class _NotIndex(Exception):
+    pass
+
+
 def term_definite_difference(a, b, depth=0):
     """Two value-graph terms of identical shape that differ only in index expressions (not identically equal), numeric
     constants, comparison operators or attribute names.  Returns a reason or None."""
@@ -442,7 +446,9 @@ def term_definite_difference(a, b, depth=0):
             side[0] = 1
             eb = tr.tr(b)
             if tr.atoms:
-                return None     # something other than loop variables, parameters, data reads and numbers: not an index expression
+                # something other than loop variables, parameters, data reads and numbers: not an index expression; two
+                # arithmetic nodes with the same operator may still differ in exactly one operand (handled structurally below)
+                raise _NotIndex()
             only_a, only_b = used[0] - used[1], used[1] - used[0]
             if (any(_is_enum_elem(x_) for x_ in only_a) and any(_is_moving_sub(x_) for x_ in only_b)) or \
                     (any(_is_enum_elem(x_) for x_ in only_b) and any(_is_moving_sub(x_) for x_ in only_a)):
@@ -465,6 +471,15 @@ def term_definite_difference(a, b, depth=0):
                         return None
                     rest.remove(hit)
             return f"index {sp.sstr(ea)} vs {sp.sstr(eb)}"
+        except _NotIndex:
+            if not (ka == kb == "bin" and a[1] == b[1] and a[1] in ("+", "-", "*", "/")):
+                return None
+            # x (op) c vs y (op) c with the SAME other operand: differs exactly when x and y do (c generic, non-zero)
+            if a[2] == b[2]:
+                return term_definite_difference(a[3], b[3], depth + 1)
+            if a[3] == b[3]:
+                return term_definite_difference(a[2], b[2], depth + 1)
+            return None
         except Exception:  # noqa
             pass
         if ka != kb:
